@@ -184,11 +184,11 @@ func Verif_C12_AttributionDecls(kind, k int) {
 	fset := token.NewFileSet()
 	var file *ast.File
 	var pos []token.Pos
-	if verifsym.Symbolic() {
+	if verifsym.Symbolic() && !vRealParser {
 		file, pos = vDeclAST(fset, kind, groupDoc, parenComment, decls)
 	} else {
 		var err error
-		file, err = parser.ParseFile(fset, "/src/p/p.go", vDeclSource(kind, groupDoc, parenComment, decls), parser.ParseComments)
+		file, err = vParse(fset, "/src/p/p.go", vDeclSource(kind, groupDoc, parenComment, decls), parser.ParseComments)
 		if err != nil {
 			panic(err)
 		}
